@@ -14,6 +14,7 @@ import os, re, sys, json
 sys.path.insert(0, os.path.dirname(os.path.abspath(__file__)))
 import translate_meta
 import translate_estimate
+import translate_seek
 
 REPO = os.environ.get("BS_REPO", "/repo")
 OUT = os.path.join(os.path.dirname(os.path.dirname(os.path.abspath(__file__))), "coq", "gen")
@@ -237,6 +238,12 @@ def main():
         summary["estimate"] = est_summary
     except (translate_estimate.NoMatch, FileNotFoundError) as e:
         broken.append(("EstimateGen", str(e)))
+    try:
+        seek_v, seek_summary = translate_seek.render(src("seek.rs"))
+        changed = write_if_changed(os.path.join(OUT, "SeekGen.v"), seek_v) or changed
+        summary["seek_bounds"] = seek_summary
+    except (translate_seek.NoMatch, FileNotFoundError) as e:
+        broken.append(("SeekGen", str(e)))
     if broken:
         for part, msg in broken:
             print("translate: source item no longer recognised (%s): %s" % (part, msg))
